@@ -117,6 +117,7 @@ type ConnCfg struct {
 	Unreliable  bool   `json:"unreliable,omitempty"` // offer a second, unreliable transport (AsUnreliable)
 	Encoding    string `json:"encoding,omitempty"`   // "" = protobuf (library default) | "json"
 	AliasReuse  bool   `json:"aliasReuse,omitempty"` // the broker hands out the stream aliases of closed upstreams again
+	OnReconnected string `json:"onReconnected,omitempty"` // "sendMeta": the application's Reconnected handler sends a metadata request
 }
 
 type Scenario struct {
@@ -471,7 +472,18 @@ func (d *Driver) exec(st *Step, g string) {
 				d.rec.Log("Disconnected")
 				d.b.HandlerHold("Disconnected") // an application handler may take its time (step holdHandler)
 			})),
-			iscp.WithConnReconnectedEventHandler(iscp.ReconnectedEventHandlerFunc(func(*iscp.ReconnectedEvent) { d.rec.Log("Reconnected") })),
+			iscp.WithConnReconnectedEventHandler(iscp.ReconnectedEventHandlerFunc(func(*iscp.ReconnectedEvent) {
+				d.rec.Log("Reconnected")
+				d.b.HandlerHold("Reconnected") // an application handler may take its time (step holdHandler)
+				if d.sc.Conn.OnReconnected == "sendMeta" {
+					// an application that sends its base time again whenever the connection is back
+					d.api("RH", "SendMeta", "conn", []any{"tag", 77}, func() (error, []any) {
+						ctx, cancel := d.ctx(2000)
+						defer cancel()
+						return d.conn.SendBaseTime(ctx, &message.BaseTime{SessionID: "s", Name: "n", Priority: 77, BaseTime: time.Unix(1, 0).UTC()}), []any{"tag", 77}
+					})
+				}
+			})),
 			iscp.WithConnNodeID("node-" + d.sc.ID),
 		}
 		if d.sc.Conn.Encoding == "json" {
